@@ -91,6 +91,51 @@ every halfspace must contain `u`. -/
 def inPolytopeL (A : ChartArith α) (Vo : VecOps α V) (radius : α) (hs : List (Halfspace α V)) (u : V) : Bool :=
   if A.lt radius (A.sqrt (Vo.dot u u)) then false else allContain A Vo hs u
 
+/-! ### `AtlasChart::psi` — tolerance and iteration limit are read at **call time**
+
+```
+const double tolerance = constraint_->getTolerance();  const double squaredTolerance = tolerance * tolerance;
+out = x0 = phi(u);  b = [ f(out) ; 0 ];
+while ((norm = b.squaredNorm()) > squaredTolerance && iter++ < constraint_->getMaxIterations())
+{ jacobian; out -= A.partialPivLu().solve(b); b = [ f(out) ; bigPhi^T (out - x0) ]; }
+return norm < squaredTolerance;
+```
+The chart stores neither number: `tolSq` and `maxIter` are *arguments of the call* (what the shared
+`Constraint` object says at that moment), not fields of the chart.  `getMaxIterations()` is re-read in
+every round of the loop; the model takes one value per call (the harness never changes it inside a
+call).  The stacked residual `b`, the Newton/LU step and `phi` are oracles; `Resid.nsq b` is
+`b.squaredNorm()` and `headNsq b` the squared norm of its constraint part `f(out)`. -/
+
+structure PsiOracle (σ S U B : Type) where
+  /-- `phi(u)` -/
+  phi : σ → U → S × σ
+  /-- the stacked vector `b` for the current iterate (constraint part and tangential part) -/
+  resid : σ → S → B × σ
+  /-- Jacobian + `partialPivLu().solve(b)` + subtraction -/
+  step : σ → S → B → S × σ
+
+/-- the `while` loop of `psi`; the first argument is `maxIterations − iter`, read for *this* call -/
+def psiLoop {σ S U B D : Type} (A : Arith D) (nsq : B → D) (O : PsiOracle σ S U B) (tolSq : D) :
+    Nat → σ → S → B → Bool × S × σ
+  | 0, s, x, b => (A.lt (nsq b) tolSq, x, s)
+  | k + 1, s, x, b =>
+    if A.lt tolSq (nsq b) then
+      psiLoop A nsq O tolSq k (O.resid (O.step s x b).2 (O.step s x b).1).2 (O.step s x b).1
+        (O.resid (O.step s x b).2 (O.step s x b).1).1
+    else (A.lt (nsq b) tolSq, x, s)
+
+/-- `AtlasChart::psi(u, out)` with the tolerance (squared) and iteration limit in force at the call -/
+def psiChart {σ S U B D : Type} (A : Arith D) (nsq : B → D) (O : PsiOracle σ S U B) (tolSq : D) (maxIter : Nat)
+    (s : σ) (u : U) : Bool × S × σ :=
+  psiLoop A nsq O tolSq maxIter (O.resid (O.phi s u).2 (O.phi s u).1).2 (O.phi s u).1
+    (O.resid (O.phi s u).2 (O.phi s u).1).1
+
+/-- a chart that *caches* the parameters at construction (the seeded change C16-s4; not the code):
+whatever is passed at call time is ignored -/
+def psiChartCached {σ S U B D : Type} (A : Arith D) (nsq : B → D) (O : PsiOracle σ S U B)
+    (cachedTolSq : D) (cachedMaxIter : Nat) (_tolSq : D) (_maxIter : Nat) (s : σ) (u : U) : Bool × S × σ :=
+  psiChart A nsq O cachedTolSq cachedMaxIter s u
+
 /-! ### the atlas' table of charts and halfspaces -/
 
 structure ChartM (α : Type) where
